@@ -68,6 +68,8 @@ def configs_for(total, rng):
 
 def argv_of(cfg, project, output):
     a = dc.argv_for(cfg, project.target_arg, output)
+    # analysis options of the program itself (-F / -x / -f; part of the input, the same in every configuration)
+    a = list(getattr(project, "option_argv", ())) + a
     if cfg.get("via_toml"):
         a = ["-c", "strict.toml"] + a
     return a
@@ -286,10 +288,14 @@ def run(tier, seed, build):
     rng2 = random.Random(seed * 7919 + 17)
     score, srest = cs.fixed_programs(tier, rng2)
     sprogs = score + srest + [cs.gen_program(rng2) for _ in range(n_scoped)]
+    # round 4: re-export chains and option-sensitive diagnostics (own generator state: the programs above stay as they were)
+    rng3 = random.Random(seed * 104729 + 71)
+    ccore, crand = cs.chain_programs(tier, rng3, n_random=6 if tier == "quick" else 120)
+    sprogs = sprogs + ccore + crand
     only = os.environ.get("C15_DEBUG_ONLY")          # debugging aid: "scoped-core" | "scoped" | "flat"
     if only:
         progs = progs if only == "flat" else []
-        sprogs = [] if only == "flat" else score if only == "scoped-core" else sprogs
+        sprogs = [] if only == "flat" else score if only == "scoped-core" else ccore + crand if only == "chain" else sprogs
     model = common.Model()
     coverage, coverage_fixed = {}, {}
     import time as _time
@@ -343,6 +349,15 @@ def run(tier, seed, build):
         lap("cli (remaining)")
         mouts = model.batch([("diag_scoped", {"cfg": model_cfg(c), "steps": r["steps"]}) if r.get("scoped") else
                              ("diag_run", {"cfg": model_cfg(c), "events": r["evs"]}) for r in recs for c in r["cfgs"]])
+        # round 4: the resolutions / walk elements each scoped program contains, against SimplResolve
+        mjobs = [(j["op"], j["payload"]) for r in recs for j in r.get("model_jobs", []) if j["op"]]
+        mj_out = iter(model.batch(mjobs)) if mjobs else iter(())
+        for r in recs:
+            if r.get("model_jobs"):
+                try:
+                    cs.judge_models(res, r, [next(mj_out) if j["op"] else None for j in r["model_jobs"]])
+                except Exception as exc:
+                    res.internal_errors.append({"what": f"harness exception {type(exc).__name__}: {exc}", "program": r["prog"]})
         lap("model")
         k = 0
         for r in recs:
@@ -412,13 +427,14 @@ def replay_scoped(prog, cfg, model):
     with dc.scratch_dir("rattr-c15-replay-") as base:
         project = cs.ScopedProject(base / "p", prog)
         print("LAYOUT:", prog.get("layout", "flat"), "- rattr is started in the project directory on", project.target_arg)
+        print("OPTIONS OF THE PROGRAM:", prog.get("options"), "-> argv", project.option_argv, "| [tool.rattr] lines:", repr(cs.option_toml(prog)))
         dry = cs.run_inprocess(project, argv_of(dict(strict=False, threshold=0, warn="all"), project, "results"))
         steps = cs.model_steps(dry)
         cl = dc.run_cli(project, argv_of(cfg, project, "stats"))
         cr = dc.run_cli(project, argv_of(cfg, project, "results"))
         mo = model.batch([("diag_scoped", {"cfg": model_cfg(cfg), "steps": steps})])[0]
         for name, src in project.sources.items():
-            print(f"{name.upper()}.py (starts at line {cs.FID[name] * cs.PAD + 1}; padding stripped):\n" + src.lstrip("\n"))
+            print(f"{name.upper()} = {project.paths[name].relative_to(project.cwd)} (starts at line {cs.FID[name] * cs.PAD + 1}; padding stripped):\n" + src.lstrip("\n"))
         print("IMPLEMENTATION: exit", cl["exit"], "stats", dc.parse_stats(cl["stdout"]),
               "stderr", [f"{l['level']}: {l['file']}:{l['line']}" for l in cl["lines"]],
               "| -o results: exit", cr["exit"], "selected output printed:", cs.selected_output(cr["stdout"]))
